@@ -74,8 +74,8 @@ def main(ck):
         subj = ('%s value %r (%s, as %s)' % (c['type'], c.get('text'), c['vclass'], {'me': 'measure', 'id': 'identifier'}.get(c.get('role'), c.get('role')))
                 if c.get('text') is not None else 'table with %s' % c['vclass'])
         arb = 'InputSpec accepts it' if s[0] == 'accept' else 'InputSpec rejects it (%s)' % s[1]
-        if all_rej:
-            continue
+        if all_rej or (len(set(kinds.values())) == 1 and not all_acc):
+            continue   # the same failure in every form (its error class is C19's business)
         if all_acc:
             groups = []   # partition the forms by equal results
             for f in forms:
